@@ -22,9 +22,10 @@ CONSTANTS MaxSubmit,   \* bound on submissions
           Pinned
 
 States == {"starting", "loading", "contemplation", "running", "gitting", "archiving", "updating"}
-Prios  == {"todo", "doing", "crew", "now"}
+Prios  == {"todo", "doing", "crew", "now", "junk"}      \* "junk": a string that is no Priority value (the front-end passes it through)
 K      == {"crew", "doing", "todo"}                  \* the three waiters
 Rank(p) == CASE p = "none" -> 0 [] p = "todo" -> 1 [] p = "doing" -> 2 [] p = "crew" -> 3 [] p = "now" -> 4
+Norm(p) == IF p = "junk" THEN "todo" ELSE p            \* FSM.set_submit_info: unrecognised -> ToDo, then accumulated like any other
 PMax(a, b) == IF b = "none" THEN (IF a = "none" THEN "todo" ELSE a) ELSE IF Rank(b) > Rank(a) THEN b ELSE a   \* tools.submit.Priority.max
 
 (* the DOCUMENTED machine, written from the property statement (not read from state.dot) *)
@@ -84,9 +85,13 @@ CompleteLoad ==     \* load.done: transitioning = active; contemplation_trigger;
     /\ UNCHANGED <<prior, arch, prio, wait, slot, busy, doing, que, sub, subp, nfired, nsub, nenv, ncyc, nraw>>
 
 CompleteNavel ==    \* _navel_gaze (in its thread): transitioning = active; running_trigger
-    /\ "navel" \in bg /\ st = "contemplation"
-    /\ st' = "running" /\ tr' = "active" /\ bg' = bg \ {"navel"}
-    /\ fire' = NoFire /\ rejected' = FALSE /\ path' = <<"contemplation", "running">>
+    /\ "navel" \in bg
+    /\ tr' = "active" /\ bg' = bg \ {"navel"} /\ fire' = NoFire
+    /\ IF st = "contemplation"
+       THEN st' = "running" /\ rejected' = FALSE /\ path' = <<"contemplation", "running">>
+       ELSE \* running_trigger came out of turn (RawRun) before the step finished: the step's own trigger is
+            \* refused (MachineError, swallowed by the deferred), the flag was lowered first
+            UNCHANGED st /\ rejected' = TRUE /\ path' = <<st>>
     /\ UNCHANGED <<prior, arch, prio, wait, slot, busy, doing, que, sub, subp, nfired, nsub, nenv, ncyc, nraw>>
 
 (* ---- update_trigger: running -> updating, after reload() ----------------- *)
@@ -112,16 +117,20 @@ CompleteReload ==   \* reload.done: active; archiving_trigger (before save_prior
     /\ UNCHANGED <<slot, doing, que, sub, subp, nsub, nenv, ncyc, nraw>>
 
 CompleteArchive ==  \* _archive_done: ARCHIVE = False; active; <prior>_trigger
-    /\ "archive" \in bg /\ st = "archiving"
-    /\ arch' = FALSE
-    /\ IF prior = "running"
-       THEN /\ st' = "running" /\ tr' = "active" /\ bg' = bg \ {"archive"}
-            /\ path' = <<"archiving", "running">>
-            /\ UNCHANGED <<prio, wait, nfired, busy>>
-       ELSE /\ st' = "loading" /\ tr' = "entering" /\ bg' = (bg \ {"archive"}) \cup {"load"}
-            /\ prio' = "none" /\ wait' = NoWait /\ nfired' = 0 /\ busy' = FALSE
-            /\ path' = <<"archiving", "updating", "loading">>
-    /\ fire' = NoFire /\ rejected' = FALSE
+    /\ "archive" \in bg
+    /\ arch' = FALSE /\ fire' = NoFire
+    /\ IF st # "archiving"
+       THEN \* left `archiving` out of turn (RawRun, prior = running): flag lowered, the return trigger is refused
+            /\ tr' = "active" /\ bg' = bg \ {"archive"} /\ rejected' = TRUE /\ path' = <<st>>
+            /\ UNCHANGED <<st, prio, wait, nfired, busy>>
+       ELSE /\ rejected' = FALSE
+            /\ IF prior = "running"
+               THEN /\ st' = "running" /\ tr' = "active" /\ bg' = bg \ {"archive"}
+                    /\ path' = <<"archiving", "running">>
+                    /\ UNCHANGED <<prio, wait, nfired, busy>>
+               ELSE /\ st' = "loading" /\ tr' = "entering" /\ bg' = (bg \ {"archive"}) \cup {"load"}
+                    /\ prio' = "none" /\ wait' = NoWait /\ nfired' = 0 /\ busy' = FALSE
+                    /\ path' = <<"archiving", "updating", "loading">>
     /\ UNCHANGED <<prior, slot, doing, que, sub, subp, nsub, nenv, ncyc, nraw>>
 
 (* ---- farm.dispatch: idle + new data -> archiving_trigger ----------------- *)
@@ -165,7 +174,7 @@ Crossroads(p, sl) ==
 SubmitEnd ==        \* Process.step_3: running_trigger; set_submit_info; submit_crossroads
     /\ sub = "gitting" /\ st = "gitting"
     /\ sub' = "idle" /\ subp' = "none"
-    /\ prio' = PMax(prio, subp)
+    /\ prio' = PMax(prio, Norm(subp))
     /\ Crossroads(prio', slot)
     /\ UNCHANGED <<prior, arch, busy, doing, que, nsub, nenv, ncyc, nraw>>
 
@@ -238,8 +247,18 @@ RawTrigger(n) ==
     /\ rejected' = TRUE /\ fire' = NoFire /\ path' = <<st>>
     /\ UNCHANGED <<st, tr, prior, bg, arch, prio, wait, slot, busy, doing, que, sub, subp, nfired, nsub, nenv, ncyc>>
 
+(* running_trigger is fired by several holders of the FSM (introspection, archive-done, submit): it may
+   arrive out of turn in a state where the documented machine ALLOWS it, while that state's own background
+   step is still outstanding.  The machine moves; the step later finds its own trigger refused. *)
+RawRun ==
+    /\ nraw < MaxRaw /\ nraw' = nraw + 1
+    /\ \/ (st = "contemplation" /\ "navel" \in bg)
+       \/ (st = "archiving" /\ "archive" \in bg /\ prior = "running")
+    /\ st' = "running" /\ path' = <<st, "running">> /\ rejected' = FALSE /\ fire' = NoFire
+    /\ UNCHANGED <<tr, prior, bg, arch, prio, wait, slot, busy, doing, que, sub, subp, nfired, nsub, nenv, ncyc>>
+
 Next ==
-    \/ (\E n \in Triggers : RawTrigger(n))
+    \/ (\E n \in Triggers : RawTrigger(n)) \/ RawRun
     \/ Boot \/ CompleteLoad \/ CompleteNavel \/ CompleteReload \/ CompleteArchive
     \/ DispatchArchive \/ (\E a \in BOOLEAN : CmdReset(a))
     \/ (\E p \in Prios : SubmitBegin(p)) \/ SubmitEnd \/ SubmitFail
@@ -264,7 +283,7 @@ C10_Edges    == [][ /\ path'[1] = st /\ path'[Len(path')] = st'
                     /\ \A i \in 1..(Len(path') - 1) : <<path'[i], path'[i + 1]>> \in Doc ]_vars
 C10_Rest     == (st # "starting" /\ bg = {}) => (st \in {"running", "gitting"} /\ tr = "active")
 C10_Active   == IsActive => bg = {}
-C10_Rejected == [][ rejected' => UNCHANGED <<st, tr, prior, bg, prio, wait>> ]_vars
+C10_Rejected == [][ (rejected' /\ bg' = bg) => UNCHANGED <<st, tr, prior, bg, prio, wait>> ]_vars   \* (a completing step lowers its flag before its own trigger)
 C10_Return   == []<>(bg = {})
 C10_ArchiveReturns ==      \* archive, and back to where it came from
     [][ \A i \in 1..(Len(path') - 1) : path'[i] = "archiving" => path'[i + 1] = prior' ]_vars
